@@ -45,6 +45,7 @@ def run(ck):
     ck.rule("C10.R5", "ValueSet::record visits a pair iff same callsite and Some; Span::record ignores undeclared", floor=3)
     ck.rule("C10.R10", "record_all!: the span's field set is only known at run time, so each value's key is looked up by the name written at the call site", floor=1)
     ck.rule("C10.R11", "with the `log` feature a field expression outside the enabled branch is evaluated only where a log record can be emitted (no collector ever installed, level <= log::max_level())", floor=150)
+    ck.rule("C10.R12", "`disabled statically`: the compile-time ceiling every macro tests first is the documented one for each feature combination and build profile (as C01.R8)", floor=30)
     ck.rule("C10.R9", "an enabled emission is not skipped by a stale `never`: the interest a first hit caches is the fold over the registered dispatchers, computed under the registry lock (as C04.R1)", floor=3)
     ck.rule("C10.R8", "`a collector has been installed` is sticky (as C18.R5): disabled callsites evaluate nothing also with the log feature", floor=3)
     ck.rule("C10.R7", "collector wrappers forward register_callsite/enabled and the records themselves (as C09.R1/R2)", floor=20)
@@ -70,6 +71,8 @@ def run(ck):
                    "no fixture function expands the valueset! arm that builds its (key, value) pair at line %d: extend fixtures/gen_fixtures.py" % line)
     r10(ck, FX)
     r11(ck)
+    from rules import C01
+    C01.r8(ck, rid="C10.R12")
     F = Facts("default")
     ck.configs.append("default")
     r4(ck, F)
@@ -354,7 +357,37 @@ def r2(ck, FX, body, fname, exp, rid="C10.R2"):
 
 
 # ------------------------------------------------------------------ R4
+def visit_defaults(ck, F, rid="C10.R4"):
+    """The provided methods of `Visit` are what every visitor that does not override them runs (the JSON visitors do not
+    override the 128-bit ones). Each hands *the value it was given* on -- to record_debug, or to a sibling record_* --
+    unchanged: no integer cast sits between the parameter and the call (an `as i64` of an i128 silently wraps)."""
+    n = 0
+    for k in sorted(F.bodies):
+        if not k.startswith(VISIT + "::record_") or k.endswith("record_debug"):
+            continue
+        b = F.body(k)
+        n += 1
+        key = "Visit::%s (provided) passes its value on unchanged" % k.rsplit("::", 1)[-1]
+        casts = [s["rv"]["cast"] for i, j, s in b.stmts() if s["k"] == "assign" and "cast" in s.get("rv", {}) and not str(s["rv"]["cast"]).startswith("ptr:")]
+        fwd = [t for bb, t in b.calls() if t["callee"].get("trait") == VISIT or (t["callee"].get("path") or "").startswith(VISIT + "::")]
+        problems = []
+        if casts:
+            problems.append("the value is converted (%s) before it is handed on: values outside the narrower type are recorded as a different number" % ", ".join(sorted(set(map(str, casts)))))
+        if not fwd:
+            problems.append("the value is not handed to any other Visit method")
+        for pth in PathEval(b).run():
+            if pth.end == "return" and not any(c[1].get("trait") == VISIT or (c[1].get("path") or "").startswith(VISIT + "::") for c in pth.calls):
+                problems.append("a path returns without recording the value")
+        if problems:
+            ck.bad(rid, key, where(b.raw["sp"]), "; ".join(sorted(set(problems))), fn=b.path)
+        else:
+            ck.ok(rid, key, fn=b.path)
+    if n < 8:
+        ck.bad(rid, "Visit's provided record_* methods found", VISIT, "only %d provided methods seen" % n)
+
+
 def r4(ck, F):
+    visit_defaults(ck, F)
     impls = [i for i in F.impls if i.get("trait") == VALUE and i["crate"] == "tracing_core"]
     for imp in impls:
         st = imp["self_ty"]
